@@ -577,6 +577,10 @@ Definition alg_rsub (e : Op) (a : Arg) : result Op :=
 
 (* ---- matmul with an operator right-hand side ---------------------------------------------------------------------------- *)
 
+(* d.view( *base.shape[:-1] ): a diagonal of length k*m (batch bs) cut into k diagonals of length m (batch k :: bs) *)
+Definition dview_blocks (d : BT) (k m : nat) : BT :=
+  mkBT (k :: bsh d) m 1 (fun I i _ => match I with a :: I' => ent d I' (a * m + i)%nat 0%nat | [] => 0 end).
+
 (* DiagLinearOperator.matmul(tensor): diag.unsqueeze(-1) * other *)
 Definition diag_times_dense (dg t : BT) : BT :=
   mkBT (bcast (bsh dg) (bsh t)) (nr t) (nc t) (fun I i j => bget dg I i 0%nat * bget t I i j).
@@ -585,7 +589,16 @@ Fixpoint diag_matmul (selfdiag : BT) (self : Op) (o : Op) : result Op :=
   match o with
   | Dense t => if bcompat (bsh selfdiag) (bsh t) && Nat.eqb (nr selfdiag) (nr t) then Ok (Dense (diag_times_dense selfdiag t)) else Err EShape
   | Tri b u => r <- diag_matmul selfdiag self b ;; mk_tri r u
-  | BlockDiag _ => Err ENotModelled
+  | BlockDiag b =>
+      (* diag_reshape = self._diag.view( *other.base_linear_op.shape[:-1] ); BlockDiag(Diag(diag_reshape) @ other.base_linear_op) *)
+      match batch b with
+      | k :: bs =>
+          if shape_eqb (bsh selfdiag) bs && Nat.eqb (nr selfdiag) (k * rows b) then
+            let d' := dview_blocks selfdiag k (rows b) in
+            r <- diag_matmul d' (Diag d') b ;; Ok (BlockDiag r)
+          else Err EBug
+      | [] => Err EBug
+      end
   | _ =>
       if is_diag o then
         let a := col_to_raw selfdiag in let b := col_to_raw (diag_of o) in
@@ -593,7 +606,7 @@ Fixpoint diag_matmul (selfdiag : BT) (self : Op) (o : Op) : result Op :=
       else mk_matmul self o
   end.
 
-Definition alg_matmul (e o : Op) : result Op :=
+Fixpoint alg_matmul (e o : Op) {struct e} : result Op :=
   match e with
   | Zero b m n => if Nat.eqb n (rows o) then Ok (Zero (batch o) m (cols o)) else Err EShape
   | Ident n b =>
@@ -602,7 +615,24 @@ Definition alg_matmul (e o : Op) : result Op :=
   | CDiag c n =>
       if is_cdiag o then alg_mul_matrix e o else diag_matmul (diag_of e) e o
   | Diag _ | KronC KKronDiag _ => diag_matmul (diag_of e) e o
-  | BlockDiag _ | Interp _ _ _ _ _ => Err ENotModelled
+  | BlockDiag b =>
+      (* BlockDiagLinearOperator.matmul: block by block against another BlockDiag with the same base shape; against a Diag-class
+         operator the diagonal is cut into one diagonal per block ( .view ); otherwise the base-class matmul *)
+      match o with
+      | BlockDiag b' =>
+          if shape_eqb (fullshape b) (fullshape b') then r <- alg_matmul b b' ;; Ok (BlockDiag r) else mk_matmul e o
+      | _ =>
+          if is_diag o then
+            match batch b with
+            | k :: bs =>
+                if shape_eqb (batch o) bs && Nat.eqb (rows o) (k * cols b) then
+                  r <- alg_matmul b (Diag (dview_blocks (diag_of o) k (cols b))) ;; Ok (BlockDiag r)
+                else Err EBug
+            | [] => Err EBug
+            end
+          else mk_matmul e o
+      end
+  | Interp _ _ _ _ _ => Err ENotModelled
   | _ => mk_matmul e o
   end.
 
@@ -686,6 +716,16 @@ Fixpoint alg_permute (e : Op) (perm : list nat) : result Op :=
   | _ => Err ENotModelled
   end.
 
+(* LinearOperator._sum_batch: SumBatchLinearOperator(self, block_dim=dim).  The Block constructor moves the block dimension to
+   the last batch position (innermost position 0) with _permute_batch, keeping the order of the others *)
+Definition move_perm (n p : nat) : list nat := p :: (seq 0 p ++ seq (S p) (n - S p)).
+Definition base_sum_batch (e : Op) (p : nat) : result Op :=
+  match batch e with
+  | [] => Err EShape                                          (* base_linear_op must be a batch matrix *)
+  | _ => if Nat.eqb p 0 then Ok (SumBatch e)
+         else e' <- alg_permute e (move_perm (length (batch e)) p) ;; Ok (SumBatch e')
+  end.
+
 (* _sum_batch over innermost-first position p *)
 Fixpoint alg_sum_batch (e : Op) (p : nat) : result Op :=
   match e with
@@ -696,7 +736,7 @@ Fixpoint alg_sum_batch (e : Op) (p : nat) : result Op :=
   | KronC KKronDiag _ => Err EBug                             (* self.__class__(tensor): constructor refuses *)
   | Zero b m n => Ok (Zero (ldelete b p) m n)
   | Tri b u => b' <- alg_sum_batch b p ;; mk_tri b' u
-  | SumC KLRRAD _ => Err ENotModelled                         (* SumBatchLinearOperator(self, dim) *)
+  | SumC KLRRAD _ => base_sum_batch e p                       (* SumBatchLinearOperator(self, dim) *)
   | SumC k ops =>
       ops' <- (fix go (l : list Op) : result (list Op) :=
                  match l with
@@ -707,7 +747,8 @@ Fixpoint alg_sum_batch (e : Op) (p : nat) : result Op :=
                              end
                  end) ops ;;
       mk_sumc k ops'
-  | _ => Err ENotModelled                                     (* base: SumBatchLinearOperator(self, block_dim=dim) *)
+  | Interp _ _ _ _ _ => Err ENotModelled                      (* own override *)
+  | _ => base_sum_batch e p
   end.
 
 (* transpose(d1, d2) of two batch dimensions: _permute_batch with the two positions swapped; ZeroLinearOperator overrides
